@@ -2,11 +2,11 @@
 From IndModel Require Import Base Estimator.
 From IndGen Require Import Constants.
 From Coq Require Import Reals Lra Lia Psatz ZArith NArith List.
+From Flocq Require Import Core.Zaux Core.Raux Core.Defs Core.Generic_fmt Core.FLT Core.Round_NE.
 Import ListNotations.
 Open Scope R_scope.
 
-(** * The weight function W(t) = (1/10)^(t/15) *)
-Definition W (t : R) : R := Rpower (1 / 10) (t / 15).
+(** * The weight function W(t) = (1/10)^(t/15)  (definition: model/Estimator.v) *)
 
 Lemma est_weight_R : forall t, est_weight Rar t = W t.
 Proof.
@@ -78,8 +78,8 @@ Proof.
         now apply exp_ln.
 Qed.
 
-(** * Seconds of a duration given in nanoseconds; R-forms of the model functions *)
-Definition secs (d : N) : R := IZR (Z.of_N d) / 1000000000.
+(** * Seconds of a duration given in nanoseconds ([secs], model/Estimator.v); R-forms of the
+    model functions *)
 
 Lemma dur_secs_R : forall d, dur_secs Rar d = secs d.
 Proof.
@@ -127,8 +127,7 @@ Proof. reflexivity. Qed.
 Lemma fzero_R : fzero Rar = 0.
 Proof. reflexivity. Qed.
 
-(** steps_per_second over R *)
-Definition sps_R (s d : R) (w n : R) : R := (d * w + s * w / n * (1 - w)) / n.
+(** steps_per_second over R: [sps_R] (model/Estimator.v) *)
 
 Lemma est_sps_R : forall (e : est R) now,
   est_sps Rar e now =
@@ -138,10 +137,7 @@ Proof.
   rewrite !dur_secs_R, !est_weight_R, fone_R. reflexivity.
 Qed.
 
-(** the rate of the segment a record would add *)
-Definition seg_rate (e : est R) (new now : N) : R :=
-  IZR (Z.of_N (new - prev_steps e)) / secs (now - prev_time e).
-
+(** [seg_rate e new now] (model/Estimator.v) = the rate of the segment a record would add *)
 Definition rec_s (e : est R) (new now : N) : R :=
   let w := W (secs (now - prev_time e)) in sm e * w + seg_rate e new now * (1 - w).
 Definition rec_d (e : est R) (new now : N) : R :=
@@ -357,42 +353,8 @@ Proof.
   nra.
 Qed.
 
-(** * Histories at the level of the estimator *)
-Inductive ev : Type :=
-| ERec (new now : N)     (* Estimator::record(new, now) *)
-| ERst (now pos : N).    (* BarState::reset: est.reset(now); est.prev_steps = pos *)
-
-Definition ev_time (x : ev) : N := match x with ERec _ t => t | ERst t _ => t end.
-Definition est_ev (x : ev) (e : est R) : est R :=
-  match x with
-  | ERec new now => est_record Rar new now e
-  | ERst now pos => bar_reset_est Rar now pos e
-  end.
-Fixpoint est_run (evs : list ev) (e : est R) : est R :=
-  match evs with [] => e | x :: r => est_run r (est_ev x e) end.
-
-(** monotonic clock: no call carries an instant before the estimator's last sample / restart *)
-Fixpoint hist_ok (evs : list ev) (e : est R) : Prop :=
-  match evs with
-  | [] => True
-  | x :: r => (prev_time e <= ev_time x)%N /\ hist_ok r (est_ev x e)
-  end.
-
-(** every segment the estimator accepts has a rate satisfying P *)
-Fixpoint segs_ok (P : R -> Prop) (evs : list ev) (e : est R) : Prop :=
-  match evs with
-  | [] => True
-  | x :: r =>
-      match x with
-      | ERec new now => (prev_steps e < new)%N -> (prev_time e < now)%N -> P (seg_rate e new now)
-      | ERst _ _ => True
-      end /\ segs_ok P r (est_ev x e)
-  end.
-
-Definition wf (e : est R) : Prop := (start_time e <= prev_time e)%N.
-(** normaliser at the last sample: 1 - W(prev_time - start_time) *)
-Definition Np (e : est R) : R := 1 - W (secs (prev_time e - start_time e)).
-
+(** * Histories at the level of the estimator
+    ([ev], [est_ev], [est_run], [hist_ok], [segs_ok], [wf], [Np]: model/Estimator.v) *)
 Lemma W_split : forall (e : est R) now, wf e -> (prev_time e <= now)%N ->
   W (secs (now - start_time e)) =
   W (secs (prev_time e - start_time e)) * W (secs (now - prev_time e)).
@@ -452,9 +414,7 @@ Proof.
 Qed.
 
 (** ** Invariants *)
-Definition J_nonneg (e : est R) : Prop := 0 <= sm e /\ 0 <= dsm e.
 Definition J_bound (M : R) (e : est R) : Prop := sm e <= M * Np e /\ dsm e <= M * Np e.
-Definition J_steady (r : R) (e : est R) : Prop := sm e = r * Np e /\ dsm e = r * Np e.
 
 Lemma Np_restart : forall pos now, Np (mkEst 0 0 pos now now) = 0.
 Proof.
@@ -815,6 +775,409 @@ Proof.
   exact wit_rise.
 Qed.
 
+(** * STEADY PROGRESS AT EVERY QUERY INSTANT: the stall discount
+    With s = d = r (1 - A) (the steady state) the query formula collapses to
+      r * (1 - ((1 - w) / (1 - A w))^2),   A = W(last sample - restart), w = W(now - last sample). *)
+Lemma alg_sps_steady : forall r A w,
+  A * w < 1 ->
+  sps_R (r * (1 - A)) (r * (1 - A)) w (1 - A * w) = r * steady_discount A w.
+Proof.
+  intros r A w H. unfold sps_R, steady_discount. field. lra.
+Qed.
+
+Lemma steady_discount_range : forall A w,
+  0 < A <= 1 -> 0 <= w <= 1 -> A * w < 1 -> 0 <= steady_discount A w <= 1.
+Proof.
+  intros A w HA Hw HAw. unfold steady_discount.
+  set (q := (1 - w) / (1 - A * w)).
+  assert (Hq0 : 0 <= q) by (apply div_nonneg; lra).
+  assert (Hq1 : q <= 1).
+  { apply div_le_of_le_mul; [lra|]. assert (A * w <= w) by nra. lra. }
+  split; nra.
+Qed.
+
+Lemma steady_discount_one_iff : forall A w,
+  0 < A <= 1 -> 0 <= w <= 1 -> A * w < 1 -> (steady_discount A w = 1 <-> w = 1).
+Proof.
+  intros A w HA Hw HAw. unfold steady_discount. split.
+  - intros H.
+    assert (Hq : (1 - w) / (1 - A * w) = 0) by nra.
+    assert (Hn : 0 < 1 - A * w) by lra.
+    unfold Rdiv in Hq. apply Rmult_integral in Hq. destruct Hq as [Hq | Hq]; [lra|].
+    assert (0 < / (1 - A * w)) by now apply Rinv_0_lt_compat. lra.
+  - intros ->. replace (1 - 1) with 0 by ring. unfold Rdiv. rewrite Rmult_0_l. ring.
+Qed.
+
+Lemma sps_steady_at : forall r e now, wf e -> J_steady r e ->
+  (prev_time e <= now)%N -> (start_time e < now)%N ->
+  est_sps Rar e now =
+  r * steady_discount (W (secs (prev_time e - start_time e))) (W (secs (now - prev_time e))).
+Proof.
+  intros r e now Hwf [Hs Hd] Hn Hst. rewrite est_sps_split by assumption.
+  rewrite Hs, Hd. unfold Np. apply alg_sps_steady. now apply Aw_lt_1.
+Qed.
+
+(** if every accepted segment has rate r, then at EVERY query instant not before the last call
+    and strictly after the last restart the reported rate is r times the explicit discount *)
+Theorem steady_every_instant : forall r evs t0 now,
+  let e := est_run evs (est_new Rar t0) in
+  hist_ok evs (est_new Rar t0) ->
+  segs_ok (fun x => x = r) evs (est_new Rar t0) ->
+  (prev_time e <= now)%N -> (start_time e < now)%N ->
+  let A := W (secs (prev_time e - start_time e)) in
+  let w := W (secs (now - prev_time e)) in
+  est_sps Rar e now = r * steady_discount A w /\
+  0 <= steady_discount A w <= 1 /\
+  (steady_discount A w = 1 <-> now = prev_time e).
+Proof.
+  intros r evs t0 now e Hh Hs Hn Hst A w.
+  destruct (restart_state_invariants 0%N t0 0 r) as (Hwf & _ & _ & Hst0).
+  destruct (inv_steady r evs (est_new Rar t0) Hwf Hst0 Hh Hs) as [HJ Hwf'].
+  assert (HAw : A * w < 1) by (now apply Aw_lt_1).
+  split; [now apply sps_steady_at|]. split.
+  - apply steady_discount_range; [apply A_range | apply w_range | exact HAw].
+  - rewrite (steady_discount_one_iff A w (A_range e) (w_range e now) HAw). unfold w. split.
+    + intros H1. destruct (N.eq_dec now (prev_time e)) as [E | E]; [exact E | exfalso].
+      assert (Hlt : W (secs (now - prev_time e)) < 1) by (apply W_lt_1, secs_pos; fold e; lia).
+      lra.
+    + intros ->. rewrite N.sub_diag, secs_0. apply W_0.
+Qed.
+
+(** the literal reading "reported rate = true rate at every query instant after the last update"
+    is REFUTED: one sample (15 steps at 15 s, rate 1), query 15 s later: 21/121 *)
+Lemma W_15_ns : W (secs 15000000000) = 1 / 10.
+Proof. rewrite secs_15. apply W_15. Qed.
+
+Theorem steady_between_samples_refuted :
+  exists r evs t0 now,
+    let e := est_run evs (est_new Rar t0) in
+    hist_ok evs (est_new Rar t0) /\ segs_ok (fun x => x = r) evs (est_new Rar t0) /\
+    (prev_time e <= now)%N /\ (start_time e < now)%N /\ est_sps Rar e now < r.
+Proof.
+  exists 1, [ERec 15 15000000000], 0%N, 30000000000%N. cbv zeta.
+  assert (Hh : hist_ok [ERec 15 15000000000] (est_new Rar 0)).
+  { cbn [hist_ok ev_time]. split; [cbn; lia | exact I]. }
+  assert (Hs : segs_ok (fun x => x = 1) [ERec 15 15000000000] (est_new Rar 0)).
+  { cbn [segs_ok]. split; [|exact I]. intros _ _. unfold seg_rate.
+    cbn [prev_steps prev_time est_new].
+    change (15000000000 - 0)%N with 15000000000%N. change (15 - 0)%N with 15%N.
+    rewrite secs_15. cbn [Z.of_N]. lra. }
+  assert (E : est_run [ERec 15 15000000000] (est_new Rar 0) =
+              (mkEst (9 / 10) (9 / 10) 15%N 15000000000%N 0%N : est R)).
+  { cbn [est_run est_ev]. rewrite est_record_accept by (cbn; lia).
+    unfold rec_d, rec_s, seg_rate. cbn [sm dsm prev_steps prev_time start_time est_new].
+    change (15000000000 - 0)%N with 15000000000%N. change (15 - 0)%N with 15%N.
+    rewrite secs_15, W_15, fzero_R. cbn [Z.of_N]. f_equal; field. }
+  split; [exact Hh|]. split; [exact Hs|].
+  destruct (steady_every_instant 1 _ 0%N 30000000000%N Hh Hs) as (Hv & _).
+  - rewrite E. cbn [prev_time]. lia.
+  - rewrite E. cbn [start_time]. lia.
+  - rewrite E in *. cbn [prev_time start_time] in *.
+    split; [lia|]. split; [lia|]. rewrite Hv.
+    change (15000000000 - 0)%N with 15000000000%N.
+    change (30000000000 - 15000000000)%N with 15000000000%N.
+    rewrite W_15_ns. unfold steady_discount. lra.
+Qed.
+
+(** * NO PROGRESS SEEN <=> RATE ZERO
+    [progress_seen e] = a sample was accepted after the last (re)start. *)
+Definition J_seen (e : est R) : Prop :=
+  J_nonneg e /\ (progress_seen e -> 0 < sm e /\ 0 < dsm e) /\
+  (prev_time e = start_time e -> sm e = 0 /\ dsm e = 0).
+
+Lemma seg_rate_pos : forall e new now, (prev_steps e < new)%N -> (prev_time e < now)%N ->
+  0 < seg_rate e new now.
+Proof.
+  intros e new now Hs Ht. unfold seg_rate. apply Rdiv_lt_0_compat.
+  - apply IZR_lt. lia.
+  - apply secs_pos. lia.
+Qed.
+
+Lemma inv_seen : forall evs e, wf e -> J_seen e -> hist_ok evs e ->
+  J_seen (est_run evs e) /\ wf (est_run evs e).
+Proof.
+  intros evs e Hwf HJ Hh.
+  apply (est_run_inv J_seen (fun _ => True)); auto.
+  - intros e0 new now Hwf0 ((Hs0 & Hd0) & _ & _) Hn Ht _.
+    assert (Hw : 0 < W (secs (now - prev_time e0)) < 1).
+    { split; [apply W_pos | apply W_lt_1, secs_pos; lia]. }
+    assert (Hr := seg_rate_pos e0 new now Hn Ht).
+    assert (Hden : 0 < 1 - W (secs (now - start_time e0))).
+    { apply denominator_pos. unfold wf in Hwf0. lia. }
+    assert (Hrs : 0 < rec_s e0 new now).
+    { unfold rec_s. cbv zeta.
+      assert (0 <= sm e0 * W (secs (now - prev_time e0))) by (apply Rmult_le_pos; lra).
+      assert (0 < seg_rate e0 new now * (1 - W (secs (now - prev_time e0))))
+        by (apply Rmult_lt_0_compat; lra).
+      lra. }
+    assert (Hrd : 0 < rec_d e0 new now).
+    { unfold rec_d. cbv zeta.
+      assert (0 <= dsm e0 * W (secs (now - prev_time e0))) by (apply Rmult_le_pos; lra).
+      assert (0 < rec_s e0 new now / (1 - W (secs (now - start_time e0))))
+        by (apply Rdiv_lt_0_compat; assumption).
+      assert (0 < rec_s e0 new now / (1 - W (secs (now - start_time e0)))
+                  * (1 - W (secs (now - prev_time e0)))) by (apply Rmult_lt_0_compat; lra).
+      lra. }
+    unfold J_seen, J_nonneg, progress_seen. cbn [sm dsm prev_time start_time].
+    split; [split; lra|]. split; [intros _; split; assumption|].
+    intros E. unfold wf in Hwf0. exfalso. lia.
+  - intros now pos. unfold J_seen, J_nonneg, progress_seen. cbn [sm dsm prev_time start_time].
+    split; [split; lra|]. split; [intros H; exfalso; lia | intros _; split; reflexivity].
+  - clear. revert e. induction evs as [|x r IH]; intros e0; cbn [segs_ok]; auto.
+    split; [destruct x; auto | apply IH].
+Qed.
+
+Lemma J_seen_new : forall t0, J_seen (est_new Rar t0).
+Proof.
+  intros t0. unfold J_seen, J_nonneg, progress_seen. cbn [est_new sm dsm prev_time start_time].
+  rewrite fzero_R. split; [split; lra|]. split; [intros H; exfalso; lia | intros _; split; reflexivity].
+Qed.
+
+Theorem rate_zero_iff_no_progress : forall evs t0 now,
+  let e := est_run evs (est_new Rar t0) in
+  hist_ok evs (est_new Rar t0) ->
+  (prev_time e <= now)%N -> (start_time e < now)%N ->
+  (progress_seen e -> 0 < est_sps Rar e now) /\
+  (~ progress_seen e -> est_sps Rar e now = 0) /\
+  (est_sps Rar e now = 0 <-> ~ progress_seen e).
+Proof.
+  intros evs t0 now e Hh Hn Hst.
+  destruct (inv_seen evs (est_new Rar t0) (wf_new t0) (J_seen_new t0) Hh) as [(HJ & Hp & Hz) Hwf].
+  fold e in HJ, Hp, Hz, Hwf.
+  assert (Hden : 0 < 1 - W (secs (now - start_time e))) by (apply denominator_pos; lia).
+  assert (Hw : 0 < W (secs (now - prev_time e)) <= 1).
+  { split; [apply W_pos | apply W_le_1, secs_nonneg]. }
+  assert (P1 : progress_seen e -> 0 < est_sps Rar e now).
+  { intros Hseen. destruct (Hp Hseen) as [Hs Hd]. rewrite est_sps_R. unfold sps_R.
+    set (n := 1 - W (secs (now - start_time e))) in *.
+    set (w := W (secs (now - prev_time e))) in *.
+    assert (0 < dsm e * w) by (apply Rmult_lt_0_compat; lra).
+    assert (0 < sm e * w / n) by (apply Rdiv_lt_0_compat; [apply Rmult_lt_0_compat; lra | exact Hden]).
+    assert (0 <= sm e * w / n * (1 - w)) by (apply Rmult_le_pos; lra).
+    apply Rdiv_lt_0_compat; lra. }
+  assert (P2 : ~ progress_seen e -> est_sps Rar e now = 0).
+  { intros Hno. unfold progress_seen, wf in *.
+    destruct Hz as [Hs Hd]; [lia|]. rewrite est_sps_R. unfold sps_R. rewrite Hs, Hd.
+    unfold Rdiv. rewrite !Rmult_0_l. rewrite Rplus_0_l, Rmult_0_l. reflexivity. }
+  split; [exact P1|]. split; [exact P2|]. split.
+  - intros Hz0 Hseen. specialize (P1 Hseen). lra.
+  - exact P2.
+Qed.
+
+(** what [progress_seen] means in terms of the calls: it becomes true exactly when [record]
+    accepts a sample, stays as it is when [record] ignores the call, and becomes false at every
+    restart (reset*, recorded backwards seek) *)
+Lemma progress_seen_step : forall x (e : est R), wf e ->
+  (progress_seen (est_ev x e) <->
+   match x with
+   | ERec new now =>
+       ((prev_steps e < new)%N /\ (prev_time e < now)%N) \/
+       ((prev_steps e <= new)%N /\ (new = prev_steps e \/ (now <= prev_time e)%N) /\ progress_seen e)
+   | ERst _ _ => False
+   end).
+Proof.
+  intros x e Hwf. unfold progress_seen, wf in *. destruct x as [new now | now pos]; cbn [est_ev].
+  - destruct (est_record_cases new now e) as [(H1 & H2 & E) | [(H1 & E) | (H1 & E)]]; rewrite E;
+      cbn [prev_time start_time].
+    + split; [intros _; left; split; assumption | intros _; lia].
+    + split; [intros H; exfalso; lia | intros [[H _] | [H _]]; exfalso; lia].
+    + destruct (N.eq_dec new (prev_steps e)) as [He | He].
+      * split; [intros H; right; repeat split; auto | intros [[H _] | (_ & _ & H)]; [exfalso; lia | exact H]].
+      * destruct (N.lt_ge_cases (prev_time e) now) as [Ht | Ht].
+        -- exfalso. rewrite est_record_accept in E by (try assumption; lia).
+           apply (f_equal prev_steps) in E. cbn [prev_steps] in E. change (T Rar) with R in *. lia.
+        -- split; [intros H; right; repeat split; auto | intros [[_ H] | (_ & _ & H)]; [exfalso; lia | exact H]].
+  - rewrite bar_reset_est_R. cbn [prev_time start_time]. split; [intros H; lia | intros []].
+Qed.
+
+(** * WHEN DOES THE STALLED RATE RISE?  Exactly when smoothed > double_smoothed.
+    [stall_rate e x] is the rate reported x seconds after the last accepted sample. *)
+Lemma stall_rate_spec : forall e now, wf e -> (prev_time e <= now)%N ->
+  est_sps Rar e now = stall_rate e (secs (now - prev_time e)).
+Proof. intros e now Hwf Hn. unfold stall_rate. now apply est_sps_split. Qed.
+
+Lemma W_onto : forall w, 0 < w < 1 -> exists x, 0 < x /\ W x = w.
+Proof.
+  intros w [H0 H1]. assert (Hl := ln_tenth_neg).
+  assert (Hlw : ln w < 0) by (rewrite <- ln_1; apply ln_increasing; lra).
+  exists (15 * (ln w / ln (1 / 10))). split.
+  - apply Rmult_lt_0_compat; [lra|].
+    replace (ln w / ln (1 / 10)) with ((- ln w) / (- ln (1 / 10))) by (field; lra).
+    apply Rdiv_lt_0_compat; lra.
+  - unfold W, Rpower.
+    replace (15 * (ln w / ln (1 / 10)) / 15 * ln (1 / 10)) with (ln w) by (field; lra).
+    now apply exp_ln.
+Qed.
+
+Lemma alg_rise_iff : forall s d A,
+  0 < A < 1 -> 0 <= d -> 0 < s ->
+  ((exists w, 0 < w < 1 /\ sps_R s d 1 (1 - A * 1) < sps_R s d w (1 - A * w)) <-> d < s).
+Proof.
+  intros s d A HA Hd Hs. split.
+  - intros (w & Hw & Hlt).
+    destruct (Rlt_le_dec d s) as [H | H]; [exact H | exfalso].
+    assert (Hdec : sps_R s d w (1 - A * w) <= sps_R s d 1 (1 - A * 1)).
+    { apply alg_sps_decay; try lra. }
+    lra.
+  - intros Hds.
+    (* any w above w0 = d / (s (1 - A) + d A) works *)
+    set (den := s * (1 - A) + d * A).
+    assert (Hden : 0 < den).
+    { unfold den. assert (0 < s * (1 - A)) by (apply Rmult_lt_0_compat; lra).
+      assert (0 <= d * A) by (apply Rmult_le_pos; lra). lra. }
+    assert (Hw0 : 0 <= d / den < 1).
+    { split; [apply div_nonneg; lra|].
+      apply Rmult_lt_reg_r with den; [exact Hden|].
+      unfold Rdiv. rewrite Rmult_assoc, Rinv_l by lra. unfold den.
+      assert (0 < (s - d) * (1 - A)) by (apply Rmult_lt_0_compat; lra). lra. }
+    set (w := (1 + d / den) / 2).
+    assert (Hw : 0 < w < 1) by (unfold w; lra).
+    assert (Hww0 : d / den < w) by (unfold w; lra).
+    exists w. split; [exact Hw|].
+    assert (HAw : A * w < 1) by nra.
+    assert (HA1 : A * 1 < 1) by lra.
+    rewrite !alg_sps_closed by assumption.
+    set (v := w / (1 - A * w)). set (v1 := 1 / (1 - A * 1)).
+    assert (Hv1 : (1 - A) * v1 = 1) by (unfold v1; field; lra).
+    assert (Hvlt : v < v1).
+    { unfold v, v1. apply Rmult_lt_reg_r with ((1 - A * w) * (1 - A * 1)).
+      - apply Rmult_lt_0_compat; lra.
+      - replace (w / (1 - A * w) * ((1 - A * w) * (1 - A * 1))) with (w * (1 - A * 1)) by (field; lra).
+        replace (1 / (1 - A * 1) * ((1 - A * w) * (1 - A * 1))) with (1 - A * w) by (field; lra).
+        nra. }
+    (* d < (1 - A) s v  <=>  d (1 - A w) < (1 - A) s w  <=>  d < w * den *)
+    assert (Hkey : d < (1 - A) * s * v).
+    { unfold v. apply Rmult_lt_reg_r with (1 - A * w); [lra|].
+      replace ((1 - A) * s * (w / (1 - A * w)) * (1 - A * w)) with ((1 - A) * s * w) by (field; lra).
+      assert (Hd2 : d < w * den).
+      { apply Rmult_lt_reg_r with (/ den); [now apply Rinv_0_lt_compat|].
+        rewrite Rmult_assoc, Rinv_r by lra. unfold Rdiv in Hww0. lra. }
+      unfold den in Hd2. lra. }
+    (* g(v) - g(v1) = (v - v1) * (d - (1 - A) s v) > 0 *)
+    assert (Hprod : 0 < (v1 - v) * ((1 - A) * s * v - d)) by (apply Rmult_lt_0_compat; lra).
+    assert (Hs1 : (1 - A) * s * v1 = s) by (rewrite (Rmult_comm (1 - A) s), Rmult_assoc, Hv1; ring).
+    nra.
+Qed.
+
+Theorem stall_rise_iff : forall evs t0,
+  let e := est_run evs (est_new Rar t0) in
+  hist_ok evs (est_new Rar t0) -> progress_seen e ->
+  ((exists x, 0 < x /\ stall_rate e 0 < stall_rate e x) <-> dsm e < sm e).
+Proof.
+  intros evs t0 e Hh Hseen.
+  destruct (inv_seen evs (est_new Rar t0) (wf_new t0) (J_seen_new t0) Hh) as [((_ & Hd0) & Hp & _) Hwf].
+  fold e in Hd0, Hp, Hwf. destruct (Hp Hseen) as [Hs Hd].
+  set (A := W (secs (prev_time e - start_time e))).
+  assert (HA : 0 < A < 1).
+  { split; [apply W_pos | apply W_lt_1, secs_pos]. unfold progress_seen in Hseen. lia. }
+  unfold stall_rate. fold A. rewrite W_0.
+  rewrite <- (alg_rise_iff (sm e) (dsm e) A HA Hd0 Hs). split.
+  - intros (x & Hx & Hlt). exists (W x). split; [|exact Hlt].
+    split; [apply W_pos | now apply W_lt_1].
+  - intros (w & Hw & Hlt). destruct (W_onto w Hw) as (x & Hx & E). exists x. rewrite E. auto.
+Qed.
+
+(** * BINARY64 UNDERFLOW OF THE WEIGHT
+    W(T seconds)^15 = (1/10)^T, so comparing W(T) with a power of two is a comparison of integers. *)
+Lemma W_pow15 : forall T : nat, W (INR T) ^ 15 = (1 / 10) ^ T.
+Proof.
+  intros T. rewrite W_pow. rewrite <- W_15, W_pow. f_equal. cbn [INR]. ring.
+Qed.
+
+Lemma tenth_pow : forall T : nat, (1 / 10) ^ T = / IZR (10 ^ Z.of_nat T).
+Proof.
+  intros T. rewrite <- pow_IZR. unfold Rdiv. rewrite Rmult_1_l. rewrite pow_inv. reflexivity.
+Qed.
+
+Lemma bpow_neg_pow15 : forall k : Z, (0 <= k)%Z ->
+  bpow radix2 (- k) ^ 15 = / IZR (2 ^ (15 * k)).
+Proof.
+  intros k Hk. rewrite bpow_opp, <- IZR_Zpower by exact Hk. rewrite pow_inv. f_equal.
+  rewrite pow_IZR. f_equal. change (radix_val radix2) with 2%Z.
+  rewrite <- Z.pow_mul_r by lia. f_equal. lia.
+Qed.
+
+Lemma W_lt_bpow : forall (T : nat) (k : Z), (0 <= k)%Z ->
+  (2 ^ (15 * k) < 10 ^ Z.of_nat T)%Z -> W (INR T) < bpow radix2 (- k).
+Proof.
+  intros T k Hk Hlt.
+  destruct (Rlt_le_dec (W (INR T)) (bpow radix2 (- k))) as [H | H]; [exact H | exfalso].
+  assert (Hp : bpow radix2 (- k) ^ 15 <= W (INR T) ^ 15).
+  { apply pow_incr. split; [apply bpow_ge_0 | exact H]. }
+  rewrite W_pow15, tenth_pow, bpow_neg_pow15 in Hp by exact Hk.
+  assert (H2 : (0 < 2 ^ (15 * k))%Z) by (apply Z.pow_pos_nonneg; lia).
+  apply Rinv_le_contravar in Hp.
+  - rewrite !Rinv_inv in Hp. apply le_IZR in Hp. lia.
+  - apply Rinv_0_lt_compat, IZR_lt. lia.
+Qed.
+
+Lemma W_gt_bpow : forall (T : nat) (k : Z), (0 <= k)%Z ->
+  (10 ^ Z.of_nat T < 2 ^ (15 * k))%Z -> bpow radix2 (- k) < W (INR T).
+Proof.
+  intros T k Hk Hlt.
+  destruct (Rlt_le_dec (bpow radix2 (- k)) (W (INR T))) as [H | H]; [exact H | exfalso].
+  assert (Hp : W (INR T) ^ 15 <= bpow radix2 (- k) ^ 15).
+  { apply pow_incr. split; [left; apply W_pos | exact H]. }
+  rewrite W_pow15, tenth_pow, bpow_neg_pow15 in Hp by exact Hk.
+  assert (H10 : (0 < 10 ^ Z.of_nat T)%Z) by (apply Z.pow_pos_nonneg; lia).
+  apply Rinv_le_contravar in Hp.
+  - rewrite !Rinv_inv in Hp. apply le_IZR in Hp. lia.
+  - apply Rinv_0_lt_compat, IZR_lt. lia.
+Qed.
+
+Lemma secs_of_seconds : forall T : nat, secs (N.of_nat T * 1000000000) = INR T.
+Proof.
+  intros T. unfold secs. rewrite N2Z.inj_mul, nat_N_Z, mult_IZR, <- INR_IZR_INZ.
+  cbn [Z.of_N]. field.
+Qed.
+
+(** binary64: smallest positive subnormal 2^-1074 (half of it: 2^-1075), smallest positive
+    normal 2^-1022 *)
+Definition T_ZERO : nat := 4855.      (* seconds: from here on the weight rounds to 0 *)
+Definition T_SUBNORMAL : nat := 4615. (* seconds: from here on the weight is below 2^-1022 *)
+
+Lemma W_4855 : W (INR T_ZERO) < bpow radix2 (-1075).
+Proof. apply (W_lt_bpow T_ZERO 1075); [lia|]. vm_compute. reflexivity. Qed.
+Lemma W_4854 : bpow radix2 (-1075) < W (INR (pred T_ZERO)).
+Proof. apply (W_gt_bpow (pred T_ZERO) 1075); [lia|]. vm_compute. reflexivity. Qed.
+Lemma W_4615 : W (INR T_SUBNORMAL) < bpow radix2 (-1022).
+Proof. apply (W_lt_bpow T_SUBNORMAL 1022); [lia|]. vm_compute. reflexivity. Qed.
+Lemma W_4614 : bpow radix2 (-1022) < W (INR (pred T_SUBNORMAL)).
+Proof. apply (W_gt_bpow (pred T_SUBNORMAL) 1022); [lia|]. vm_compute. reflexivity. Qed.
+
+(** round-to-nearest-even in binary64 (with gradual underflow) *)
+Definition RN64 (x : R) : R := round radix2 (FLT_exp (-1074) 53) ZnearestE x.
+
+Lemma RN64_tiny : forall x, 0 < x < bpow radix2 (-1075) -> RN64 x = 0.
+Proof.
+  intros x [H0 H1]. unfold RN64.
+  assert (Hx : x <> 0) by lra.
+  assert (Hm : (mag radix2 x <= -1075)%Z).
+  { apply mag_le_bpow; [exact Hx|]. rewrite Rabs_pos_eq by lra. exact H1. }
+  apply round_N_small_pos with (ex := mag radix2 x).
+  - destruct (mag radix2 x) as [ex He]. cbn [mag_val] in *. specialize (He Hx).
+    rewrite Rabs_pos_eq in He by lra. exact He.
+  - unfold FLT_exp. lia.
+Qed.
+
+(** the underflow thresholds, for every stall length given in nanoseconds *)
+Theorem weight_underflow : forall t : N,
+  ((N.of_nat T_ZERO * 1000000000 <= t)%N ->
+     0 < W (secs t) < bpow radix2 (-1075) /\ RN64 (W (secs t)) = 0) /\
+  ((t <= N.of_nat (pred T_ZERO) * 1000000000)%N -> bpow radix2 (-1075) < W (secs t)) /\
+  ((N.of_nat T_SUBNORMAL * 1000000000 <= t)%N -> W (secs t) < bpow radix2 (-1022)) /\
+  ((t <= N.of_nat (pred T_SUBNORMAL) * 1000000000)%N -> bpow radix2 (-1022) < W (secs t)).
+Proof.
+  intros t. repeat split.
+  - apply W_pos.
+  - apply Rle_lt_trans with (2 := W_4855). apply W_decr. rewrite <- secs_of_seconds. now apply secs_le.
+  - apply RN64_tiny. split; [apply W_pos|].
+    apply Rle_lt_trans with (2 := W_4855). apply W_decr. rewrite <- secs_of_seconds. now apply secs_le.
+  - intros H. apply Rlt_le_trans with (1 := W_4854). apply W_decr. rewrite <- secs_of_seconds. now apply secs_le.
+  - intros H. apply Rle_lt_trans with (2 := W_4615). apply W_decr. rewrite <- secs_of_seconds. now apply secs_le.
+  - intros H. apply Rlt_le_trans with (1 := W_4614). apply W_decr. rewrite <- secs_of_seconds. now apply secs_le.
+Qed.
+
 (** * FORGETTING *)
 (** a restart (reset_eta / reset_elapsed / reset, or a recorded backwards seek) leaves a state
     that is a function of the instant and the current position only *)
@@ -829,9 +1192,6 @@ Proof. intros new now e1 e2 H1 H2. now rewrite !est_record_rewind. Qed.
 
 (** the restarted state is the state of a NEW estimator created at that instant, with the
     position origin moved to the current position *)
-Definition est_shift {F} (p : N) (e : est F) : est F :=
-  mkEst (sm e) (dsm e) (prev_steps e + p)%N (prev_time e) (start_time e).
-
 Lemma reset_is_shifted_new : forall (A : arith) now pos (e : est (T A)),
   bar_reset_est A now pos e = est_shift pos (est_new A now).
 Proof. reflexivity. Qed.
